@@ -576,6 +576,178 @@ impl Scenario for ChClose {
 }
 
 // -----------------------------------------------------------------------------------------
+// C10 (E2 part): channel ids through the live I/O thread
+
+pub struct Ids;
+
+impl Scenario for Ids {
+    fn name(&self) -> &'static str {
+        "ids"
+    }
+    fn property(&self) -> &'static str {
+        "C10"
+    }
+    fn variants(&self, _tier: &str) -> Vec<Value> {
+        vec![
+            json!({"max": 0, "ops": ["some:65535", "call:0", "none", "call:1", "close:0", "some:65535", "call:2", "some:0", "some:65535", "some:65534", "call:3"]}),
+            json!({"max": 2, "ops": ["none", "none", "none", "call:0", "close:0", "none", "call:2", "some:0", "some:3", "close:1", "some:2", "call:3", "none"]}),
+            json!({"max": 1, "ops": ["none", "none", "close:0", "some:1", "none", "call:1", "close:1", "none", "call:2", "some:1"]}),
+            json!({"max": 3, "ops": ["some:2", "none", "none", "none", "close:0", "some:2", "none", "close:1", "close:2", "none", "none", "none"]}),
+        ]
+    }
+    fn bound(&self, tier: &str, _p: &Value) -> usize {
+        if tier == "thorough" {
+            2
+        } else {
+            1
+        }
+    }
+    fn describe(&self) -> String {
+        "sequences of open_channel(None), open_channel(Some(id)), a call on an open channel and Channel::close on a live connection with channel_max 1, 2, 3 and 65535 (ids 0, max, max+1, a reopened id, exhaustion and reuse); every result is compared with a set-of-open-ids reference: Some(id) yields exactly id iff id is in range and not open, None yields some id in range that is not open iff one exists, calls on every channel handed out work".into()
+    }
+    fn build(&self, p: &Value) -> Built {
+        let max = p["max"].as_u64().unwrap() as u16;
+        let mut hs = Handshake::default();
+        // the server imposes no limit of its own: the client's option decides (0 = 65535)
+        hs.tune = (0, 131072, 0);
+        let broker = StdBroker::new(hs);
+        let ops: Vec<String> = p["ops"].as_array().unwrap().iter().map(|x| x.as_str().unwrap().to_string()).collect();
+        Built {
+            broker: Box::new(broker),
+            cfg: EnvConfig::default(),
+            root: Box::new(move |ctx: Ctx| {
+                let mut conn = match open(&ctx, ConnectionOptions::default().heartbeat(0).channel_max(max), ConnectionTuning::default()) {
+                    Ok(c) => c,
+                    Err(e) => {
+                        ctx.log(format!("open -> Err({})", err_name(&e)));
+                        return;
+                    }
+                };
+                let mut chans: Vec<Option<Channel>> = Vec::new();
+                for op in &ops {
+                    let (kind, arg) = op.split_once(':').map(|(a, b)| (a, b.parse::<usize>().unwrap())).unwrap_or((op.as_str(), 0));
+                    match kind {
+                        "none" | "some" => {
+                            let r = if kind == "none" { conn.open_channel(None) } else { conn.open_channel(Some(arg as u16)) };
+                            ctx.log(format!("{} -> {:?}", op, r.as_ref().map(|c| c.channel_id()).map_err(err_name)));
+                            chans.push(r.ok());
+                        }
+                        "call" => match chans.get(arg).and_then(|c| c.as_ref()) {
+                            Some(c) => {
+                                let r = c.queue_purge("q");
+                                ctx.log(format!("{} -> {:?} on {}", op, r.map_err(|e| err_name(&e)), c.channel_id()));
+                            }
+                            None => ctx.log(format!("{} -> skipped", op)),
+                        },
+                        _ => match chans.get_mut(arg).and_then(|c| c.take()) {
+                            Some(c) => {
+                                let id = c.channel_id();
+                                let r = c.close();
+                                ctx.log(format!("{} -> {:?} on {}", op, r.map_err(|e| err_name(&e)), id));
+                            }
+                            None => ctx.log(format!("{} -> skipped", op)),
+                        },
+                    }
+                }
+                for c in chans.into_iter().flatten() {
+                    std::mem::forget(c);
+                }
+                let r = conn.close();
+                ctx.log(format!("close -> {}", res(&r)));
+            }),
+        }
+    }
+    fn check(&self, p: &Value, o: &Outcome, _w: &World) -> Vec<(String, String)> {
+        let mut v = Vec::new();
+        let max = match p["max"].as_u64().unwrap() as u32 {
+            0 => 65535,
+            m => m,
+        };
+        let main = o.logs.get("main").cloned().unwrap_or_default();
+        let mut open: std::collections::BTreeSet<u32> = Default::default();
+        let mut handed: Vec<Option<u32>> = Vec::new();
+        // request numbers per channel id for the value-carrying call
+        let mut seqs: std::collections::BTreeMap<u32, u32> = Default::default();
+        let ops: Vec<String> = p["ops"].as_array().unwrap().iter().map(|x| x.as_str().unwrap().to_string()).collect();
+        for (i, op) in ops.iter().enumerate() {
+            let line = match main.get(i) {
+                Some(l) => l.clone(),
+                None => {
+                    v.push(("ids:incomplete".into(), format!("log ends before op {} ({}): {:?}", i, op, main)));
+                    return v;
+                }
+            };
+            let got = line.split_once(" -> ").map(|x| x.1.to_string()).unwrap_or_default();
+            let (kind, arg) = op.split_once(':').map(|(a, b)| (a, b.parse::<u32>().unwrap())).unwrap_or((op.as_str(), 0));
+            match kind {
+                "some" => {
+                    let ok = arg >= 1 && arg <= max && !open.contains(&arg);
+                    let want = if ok { format!("Ok({})", arg) } else { format!("Err(\"UnavailableChannelId({})\")", arg) };
+                    if got != want {
+                        v.push(("ids:explicit-id".into(), format!("op {} {} with open ids {:?} (channel_max {}): {} expected {}", i, op, open, max, got, want)));
+                        return v;
+                    }
+                    if ok {
+                        open.insert(arg);
+                        seqs.insert(arg, 1);
+                    }
+                    handed.push(if ok { Some(arg) } else { None });
+                }
+                "none" => {
+                    if (open.len() as u32) < max {
+                        let id = got.strip_prefix("Ok(").and_then(|x| x.strip_suffix(')')).and_then(|x| x.parse::<u32>().ok());
+                        match id {
+                            Some(id) if id >= 1 && id <= max && !open.contains(&id) => {
+                                open.insert(id);
+                                seqs.insert(id, 1);
+                                handed.push(Some(id));
+                            }
+                            _ => {
+                                v.push(("ids:allocated-id".into(), format!("op {} open_channel(None) with open ids {:?} (channel_max {}): {}", i, open, max, got)));
+                                return v;
+                            }
+                        }
+                    } else {
+                        if got != "Err(\"ExhaustedChannelIds\")" {
+                            v.push(("ids:exhaustion".into(), format!("op {} open_channel(None) with every id open {:?}: {}", i, open, got)));
+                            return v;
+                        }
+                        handed.push(None);
+                    }
+                }
+                "call" => {
+                    if let Some(Some(id)) = handed.get(arg as usize) {
+                        let seq = seqs.get_mut(id).map(|s| {
+                            *s += 1;
+                            *s
+                        }).unwrap_or(0);
+                        let want = format!("Ok({}) on {}", id * 1000 + seq, id);
+                        if got != want {
+                            v.push(("ids:call-on-channel".into(), format!("op {} {}: {} expected {}", i, op, got, want)));
+                            return v;
+                        }
+                    }
+                }
+                _ => {
+                    if let Some(Some(id)) = handed.get(arg as usize).cloned() {
+                        if got != format!("Ok(()) on {}", id) {
+                            v.push(("ids:close".into(), format!("op {} {}: {}", i, op, got)));
+                            return v;
+                        }
+                        open.remove(&id);
+                        handed[arg as usize] = None;
+                    }
+                }
+            }
+        }
+        if main.last().map(|s| s.as_str()) != Some("close -> Ok") {
+            v.push(("ids:close-connection".into(), format!("{:?}", main)));
+        }
+        v
+    }
+}
+
+// -----------------------------------------------------------------------------------------
 // C01 (E2 part)
 
 pub struct Wire;
